@@ -78,6 +78,7 @@ var c16commonDirs = []string{"sub", "sub2", "dir.d", "d e", "ü", "A", "data", "
 var c16specialDirs = []string{".git", ".hg", ".svn", ".bzr", ".hidden.d", "_priv", "vendor", "testdata", "node_modules", "CON", "a~1", "st*r", "trail.", "☺"}
 
 type c16tree struct {
+	rich  bool // walk mode: subtrees dense in everything a directory walk must filter silently
 	tame  bool // fewer exotic names / irregular files, so that globs have a chance to be accepted
 	rng   *rand.Rand
 	root  string
@@ -137,6 +138,9 @@ func c16content(r *rand.Rand) []byte {
 func c16pick(r *rand.Rand, l []string) string { return l[r.Intn(len(l))] }
 
 func (t *c16tree) fileName() string {
+	if t.rich && t.rng.Intn(3) == 0 {
+		return c16pick(t.rng, c16exoticFiles)
+	}
 	if t.rng.Intn(5) == 0 && !(t.tame && t.rng.Intn(4) != 0) {
 		n := c16pick(t.rng, c16exoticFiles)
 		if n == "long" {
@@ -148,7 +152,18 @@ func (t *c16tree) fileName() string {
 }
 
 func (t *c16tree) dirName() string {
-	if t.rng.Intn(4) == 0 && !(t.tame && t.rng.Intn(3) != 0) {
+	// VCS directories and hidden/underscore directories are skipped silently by directory walks (the filter under
+	// test), so they stay frequent in tame trees too; names module.CheckFilePath rejects are kept rarer there.
+	k := t.rng.Intn(100)
+	if t.rich {
+		k /= 2 // twice the share of VCS / hidden / invalid directory names
+	}
+	switch {
+	case k < 10:
+		return c16pick(t.rng, []string{".git", ".hg", ".svn", ".bzr"})
+	case k < 18:
+		return c16pick(t.rng, []string{".hidden.d", "_priv", "vendor", "testdata", "node_modules"})
+	case k < 26 && !(t.tame && t.rng.Intn(3) != 0):
 		return c16pick(t.rng, c16specialDirs)
 	}
 	return c16pick(t.rng, c16commonDirs)
@@ -179,7 +194,12 @@ func (t *c16tree) gen(dir string, depth int) {
 	}
 	for i := 0; i < n; i++ {
 		k := r.Intn(100)
-		if t.tame && k >= 76 && r.Intn(4) != 0 {
+		// irregular files, symlinks and nested modules are skipped silently by directory walks but make top-level globs fail:
+		// tame trees keep them below the top level
+		if t.rich && k < 76 && r.Intn(4) == 0 {
+			k = 76 + r.Intn(24)
+		}
+		if t.tame && k >= 76 && depth == 0 && r.Intn(4) != 0 {
 			k = r.Intn(76)
 		}
 		switch {
@@ -312,6 +332,8 @@ type c16pkg struct {
 	tree     *c16tree
 	gofiles  map[string]string // name -> source
 	vars     int
+	walk     bool
+	walkDirs []string
 	benign   bool   // every pattern derived from the tree, no invalidating mutation, no hostile line encoding
 	layout   string // probes only: label of a non-standard directive placement
 	kinds    []string // pattern / encoding / layout labels
@@ -324,6 +346,16 @@ func c16runes(s string) []rune { return []rune(s) }
 // derive a pattern from the generated tree
 func (p *c16pkg) derive(r *rand.Rand) c16pat {
 	t := p.tree
+	if p.walk {
+		d := c16pick(r, p.walkDirs)
+		switch r.Intn(8) {
+		case 0:
+			return c16pat{"top.txt", "walk-file"}
+		case 1, 2, 3:
+			return c16pat{"all:" + d, "walk-all-dir"}
+		}
+		return c16pat{d, "walk-dir"}
+	}
 	var files, dirs, specials, through []string
 	kindOf := map[string]string{}
 	for _, n := range t.nodes {
